@@ -70,6 +70,7 @@ def c_definition_tu(repo, name):
     tab = _def_cache.get(repo)
     if tab is None:
         tab = {}
+        texts = {}
         for r in ("mdtraj/geometry/src", "mdtraj/rmsd/src"):
             d = os.path.join(repo, r)
             if not os.path.isdir(d):
@@ -85,10 +86,27 @@ def c_definition_tu(repo, name):
                         if os.path.exists(cand):
                             txt += "\n" + open(cand, errors="replace").read()
                             break
+                texts[rel] = txt
+                txt = re.sub(r"/\*.*?\*/", " ", txt, flags=re.S)
+                txt = re.sub(r"//[^\n]*", " ", txt)
+                txt = re.sub(r"^[ \t]*#.*$", "", txt, flags=re.M)   # signatures under #ifdef are followed by '#endif' and then '{'
                 for m in re.finditer(r"\b([A-Za-z_]\w*)\s*\([^;{}()]*\)\s*(?:const\s*)?\{", txt):
                     tab.setdefault(m.group(1), rel)
         _def_cache[repo] = tab
-    return tab.get(name)
+        _def_cache[(repo, "texts")] = texts
+    if name in tab:
+        return tab[name]
+    # signatures selected by the preprocessor (kernel headers): ask clang which TU defines the function
+    from . import cfront
+    for rel, txt in _def_cache.get((repo, "texts"), {}).items():
+        if re.search(r"\b%s\s*\(" % re.escape(name), txt):
+            try:
+                cfront.get(repo).function(rel, name)
+                tab[name] = rel
+                return rel
+            except AnalysisError:
+                continue
+    return None
 
 
 def c_param_written(ptext):
@@ -403,12 +421,28 @@ def check_r5(ctx):
             if isinstance(n, ast.Attribute) and n.attr in ("xyz", "_xyz") and isinstance(n.value, ast.Name) and n.value.id in fi.params:
                 if n.value.id not in tp:
                     tp.append(n.value.id)
+        # array parameters of public functions (other than trajectories and explicit output buffers) are inputs too
+        if fi.rel.endswith(".py") and "." not in fi.qual:
+            arr_events = []
+            for (node, root, what, certain) in eff.mutation_events(fi):
+                base = root.split(".")[0].split("[")[0]
+                if base in fi.params and base not in tp and base not in ("out", "self") and "." not in root and certain:
+                    arr_events.append((node, root, what))
+            seen_a = set()
+            for (node, root, what) in arr_events:
+                if (root, what) in seen_a:
+                    continue
+                seen_a.add((root, what))
+                ctx.violated("C03-R5", node, fi.rel, fi.qual, "write to argument %s" % root,
+                             "%s: the caller's array is modified by an analysis function" % what)
         if not tp:
             continue
         events = []
         maybe = []
         for (node, root, what, certain) in eff.mutation_events(fi):
             base = root.split(".")[0].split("[")[0]
+            if ".unitcell_vectors" in root or ".unitcell_volumes" in root:
+                continue   # computed properties: the getter builds a new array on every access (trajectory.py: unitcell_vectors)
             if base in tp:
                 (events if certain else maybe).append((node, root, what))
         if events and key in R5_EXCEPTIONS:
